@@ -13,6 +13,28 @@ module N =
                  | N0 -> n
                  | Npos q -> Npos (Pos.add p q))
 
+  (** val sub : coq_N -> coq_N -> coq_N **)
+
+  let sub n m =
+    match n with
+    | N0 -> N0
+    | Npos n' ->
+      (match m with
+       | N0 -> n
+       | Npos m' ->
+         (match Pos.sub_mask n' m' with
+          | Pos.IsPos p -> Npos p
+          | _ -> N0))
+
+  (** val mul : coq_N -> coq_N -> coq_N **)
+
+  let mul n m =
+    match n with
+    | N0 -> N0
+    | Npos p -> (match m with
+                 | N0 -> N0
+                 | Npos q -> Npos (Pos.mul p q))
+
   (** val compare : coq_N -> coq_N -> comparison **)
 
   let compare n m =
@@ -34,6 +56,13 @@ module N =
     | Npos p -> (match m with
                  | N0 -> false
                  | Npos q -> Pos.eqb p q)
+
+  (** val leb : coq_N -> coq_N -> bool **)
+
+  let leb x y =
+    match compare x y with
+    | Gt -> false
+    | _ -> true
 
   (** val min : coq_N -> coq_N -> coq_N **)
 
